@@ -357,8 +357,8 @@ def run(check):
                   'lxml for the XML family), through ServerBase and through WsgiApplication.  A case is distinct by (service, '
                   'protocol, validator, transport, body, transport parameters)')
     check.trusted = list(lib.COMMON_TRUSTED) + [
-        'translator harness/translate/pipeline.py (the try/except clauses, guards, raise statements and call skeletons of the '
-        'request-decoding pipeline, the exception class hierarchy and the Fault CODEs -> Gen/Pipeline.v)',
+        'translator harness/translate/reqpipe.py (the try/except clauses, guards, raise statements and call skeletons of the '
+        'request-decoding pipeline, the exception class hierarchy and the Fault CODEs -> Gen/ReqPipe.v)',
         'translator harness/translate/numtypes.py (validate_string of Integer -> Gen/NumTypes.v)',
         'harness/c10_universe.py: the introspection that renders the built Spyne application (interface.classes, '
         'service_method_map, member Attributes) and parsed documents (lxml trees, json/yaml/msgpack values) as Gallina terms',
@@ -380,7 +380,7 @@ def run(check):
         'the response side (fault serialisation, HTTP status) is observed by the oracle, not modelled (C09, C13)',
         'time and memory are outside the model',
     ]
-    check.regen(['pipeline', 'numtypes'])
+    check.regen(['reqpipe', 'numtypes'])
     check.check_sources()
     check.prove('Props.C10', THEOREMS)
     ok, log = lib.build(['C10/Corr.vo'])
@@ -431,8 +431,8 @@ def replay(check, path):
 IMPORTS = 'From SpyneV Require Import C10.Corr.\n'
 
 def coq_class_table():
-    from translate import pipeline
-    return dict(('%s.%s' % (m, q), c) for m, q, c in pipeline.CLASS_NAMES)
+    from translate import reqpipe
+    return dict(('%s.%s' % (m, q), c) for m, q, c in reqpipe.CLASS_NAMES)
 
 
 def g_exc(names, table):
